@@ -961,3 +961,256 @@ func runCrossProduct(p *Program, c *Collector, a FuncRuleSpec) {
 		c.Ob(a.Props, "E7.cross-product", "crossproduct:"+strings.Join(a.Funcs, ","), Discharged, a.What+": no record is filed inside nested loops", "", true)
 	}
 }
+
+// ---------------------------------------------------------------------------------------------
+// text identity: the text handed to a lexer is the text that was read or given — positions recorded by the listeners are
+// offsets into it, and the rename writes through them into the file. A string that went through a transforming library call
+// (strings.ToValidUTF8, a Replace, a regexp, a Trim…) on its way into antlr.NewInputStream is another text.
+type TextIdentitySpec struct {
+	Props []string `json:"props"`
+	Funcs []string `json:"funcs"`
+	Sinks []string `json:"sinks"` // full names of the functions whose first argument must be the text as it is
+	What  string   `json:"what"`
+}
+
+func runTextIdentity(p *Program, c *Collector, ti TextIdentitySpec) {
+	isSink := func(f *ssa.Function) bool {
+		if f == nil {
+			return false
+		}
+		n, k := fullFuncName(f), p.FuncKey(f)
+		for _, s := range ti.Sinks {
+			if s == n || s == k {
+				return true
+			}
+		}
+		return false
+	}
+	n := 0
+	for _, fn := range expandFuncs(p, c, ti.Funcs, ti.Props...) {
+		k := 0
+		for _, b := range fn.Blocks {
+			for _, in := range b.Instrs {
+				call, ok := in.(*ssa.Call)
+				if !ok || !isSink(call.Call.StaticCallee()) || len(call.Call.Args) == 0 {
+					continue
+				}
+				k++
+				n++
+				key := "textidentity:" + p.FuncKey(fn) + " #" + strconv.Itoa(k) + " -> " + shortFn(fullFuncName(call.Call.StaticCallee()))
+				bad := ""
+				seen := map[ssa.Value]bool{}
+				var walk func(v ssa.Value)
+				walk = func(v ssa.Value) {
+					if v == nil || seen[v] || bad != "" {
+						return
+					}
+					seen[v] = true
+					switch x := v.(type) {
+					case *ssa.Parameter, *ssa.Const, *ssa.FreeVar, *ssa.Global:
+					case *ssa.Convert:
+						walk(x.X)
+					case *ssa.ChangeType:
+						walk(x.X)
+					case *ssa.Phi:
+						for _, e := range x.Edges {
+							walk(e)
+						}
+					case *ssa.Extract:
+						walk(x.Tuple)
+					case *ssa.UnOp:
+						walk(x.X)
+					case *ssa.Call:
+						callee := x.Call.StaticCallee()
+						if callee == nil {
+							return
+						}
+						full := fullFuncName(callee)
+						switch {
+						case full == "io/ioutil.ReadFile" || full == "os.ReadFile" || full == "io/ioutil.ReadAll" || full == "io.ReadAll":
+						case p.IsOwnFunc(callee):
+						default:
+							pkgPath := ""
+							if callee.Pkg != nil {
+								pkgPath = callee.Pkg.Pkg.Path()
+							}
+							switch pkgPath {
+							case "strings", "bytes", "regexp", "unicode/utf8", "unicode", "golang.org/x/text/transform":
+								bad = full
+							}
+							if callee.Signature.Recv() != nil {
+								if pk, _ := namedTypeName(callee.Signature.Recv().Type()); pk == "regexp" || pk == "strings" || pk == "bytes" {
+									bad = full
+								}
+							}
+						}
+					case *ssa.BinOp:
+						bad = "a concatenation"
+					}
+				}
+				walk(call.Call.Args[0])
+				if bad != "" {
+					c.Ob(ti.Props, "E7.text-identity", key, Violated, ti.What+": the text "+shortFn(p.FuncKey(fn))+" hands on has gone through "+bad+": it is no longer the text of the file, and the lines and columns recorded from it point elsewhere", p.InstrPos(call), false)
+				} else {
+					c.Ob(ti.Props, "E7.text-identity", key, Discharged, "the text is handed on as it was read or given", p.InstrPos(call), true)
+				}
+			}
+		}
+	}
+	if n == 0 {
+		c.Ob(ti.Props, "E7.text-identity", "textidentity:"+strings.Join(ti.Funcs, ","), Discharged, ti.What+": no text is handed to a lexer in the named functions (files are opened by path)", "", true)
+	}
+}
+
+// ---------------------------------------------------------------------------------------------
+// grown while ranged: `for _, x := range xs { xs = append(xs, …) }` — the range expression is evaluated once, so what the body
+// appends is never visited: a work list written this way handles one level only (member types of member types dropped out).
+// A loop that re-reads len(xs) every time (for i := 0; i < len(xs); i++) does visit them.
+func runGrownWhileRanged(p *Program, c *Collector, a FuncRuleSpec) {
+	n := 0
+	for _, fn := range expandFuncs(p, c, a.Funcs, a.Props...) {
+		if len(fn.Blocks) == 0 {
+			continue
+		}
+		k := 0
+		for _, loop := range naturalLoops(fn) {
+			h := loopHeader(loop)
+			if h == nil {
+				continue
+			}
+			// the bound: header compares an index phi with len(xs) computed outside the loop
+			var ranged ssa.Value
+			for _, in := range h.Instrs {
+				bo, ok := in.(*ssa.BinOp)
+				if !ok || bo.Op != token.LSS {
+					continue
+				}
+				if lc, ok := bo.Y.(*ssa.Call); ok {
+					if bi, ok := lc.Call.Value.(*ssa.Builtin); ok && bi.Name() == "len" && !loop[lc.Block()] {
+						if _, isSlice := lc.Call.Args[0].Type().Underlying().(*types.Slice); isSlice {
+							ranged = lc.Call.Args[0]
+						}
+					}
+				}
+			}
+			if ranged == nil {
+				continue
+			}
+			k++
+			n++
+			key := "grownwhileranged:" + p.FuncKey(fn) + " loop#" + strconv.Itoa(k)
+			// an append inside the loop whose first argument is the ranged list or a value that becomes it on the next round
+			fam := map[ssa.Value]bool{ranged: true}
+			for changed := true; changed; {
+				changed = false
+				for b := range loop {
+					for _, in := range b.Instrs {
+						switch x := in.(type) {
+						case *ssa.Phi:
+							for _, e := range x.Edges {
+								if fam[e] && !fam[x] {
+									fam[x], changed = true, true
+								}
+							}
+						case *ssa.Call:
+							if bi, ok := x.Call.Value.(*ssa.Builtin); ok && bi.Name() == "append" && len(x.Call.Args) > 0 && fam[x.Call.Args[0]] && !fam[x] {
+								fam[x], changed = true, true
+							}
+						}
+					}
+				}
+			}
+			// loads of the same cell count as the list too
+			var cell ssa.Value
+			if u, ok := ranged.(*ssa.UnOp); ok && u.Op == token.MUL {
+				cell = u.X
+			}
+			var bad ssa.Instruction
+			for b := range loop {
+				for _, in := range b.Instrs {
+					call, ok := in.(*ssa.Call)
+					if !ok {
+						continue
+					}
+					if bi, ok := call.Call.Value.(*ssa.Builtin); !ok || bi.Name() != "append" || len(call.Call.Args) == 0 {
+						continue
+					}
+					a0 := call.Call.Args[0]
+					same := fam[a0]
+					if u, ok := a0.(*ssa.UnOp); ok && u.Op == token.MUL && cell != nil && u.X == cell {
+						same = true
+					}
+					if same {
+						bad = in
+					}
+				}
+			}
+			if bad != nil {
+				c.Ob(a.Props, "E7.grown-while-ranged", key, Violated, a.What+": "+shortFn(p.FuncKey(fn))+" appends to the list it ranges over ("+p.InstrPos(bad)+"): the range was fixed when the loop began, so the appended elements are never visited", p.InstrPos(bad), false)
+			} else {
+				c.Ob(a.Props, "E7.grown-while-ranged", key, Discharged, "the ranged list is not grown inside the loop", p.InstrPos(h.Instrs[0]), true)
+			}
+		}
+	}
+	if n == 0 {
+		c.Ob(a.Props, "E7.grown-while-ranged", "grownwhileranged:"+strings.Join(a.Funcs, ","), Discharged, a.What+": no range loop over a list", "", true)
+	}
+}
+
+// ---------------------------------------------------------------------------------------------
+// append only: a package-level list that holds parsed records in the order they were read is only ever reset or appended to;
+// assigning its elements, swapping them or sorting it changes the order the property promises.
+type AppendOnlySpec struct {
+	Props  []string `json:"props"`
+	Funcs  []string `json:"funcs"`
+	Global string   `json:"global"` // "<rel pkg>.<var>"
+	What   string   `json:"what"`
+}
+
+func runAppendOnly(p *Program, c *Collector, ao AppendOnlySpec) {
+	key := "appendonly:" + ao.Global
+	found := false
+	var bad ssa.Instruction
+	why := ""
+	for _, fn := range expandFuncs(p, c, ao.Funcs, ao.Props...) {
+		for _, b := range fn.Blocks {
+			for _, in := range b.Instrs {
+				switch x := in.(type) {
+				case *ssa.Store:
+					g, whole := globalOfAddr(x.Addr)
+					if g == nil || p.GlobalKey(g) != ao.Global {
+						// an element reached through a load of the list
+						if ia, ok := x.Addr.(*ssa.IndexAddr); ok {
+							if lg := loadedGlobal(ia.X); lg != nil && p.GlobalKey(lg) == ao.Global && bad == nil {
+								bad, why = in, "an element of the list is assigned"
+							}
+						}
+						continue
+					}
+					found = true
+					if whole {
+						continue
+					}
+				case *ssa.Call:
+					if callee := x.Call.StaticCallee(); callee != nil && strings.HasPrefix(fullFuncName(callee), "sort.") && len(x.Call.Args) > 0 {
+						a0 := x.Call.Args[0]
+						if mi, ok := a0.(*ssa.MakeInterface); ok {
+							a0 = mi.X
+						}
+						if lg := loadedGlobal(a0); lg != nil && p.GlobalKey(lg) == ao.Global && bad == nil {
+							bad, why = in, "the list is sorted"
+						}
+					}
+				}
+			}
+		}
+	}
+	switch {
+	case !found:
+		c.Ob(ao.Props, "E7.append-only", key, Undecided, ao.What+": "+ao.Global+" is not assigned in the named functions any more (anchor lost)", "", false)
+	case bad != nil:
+		c.Ob(ao.Props, "E7.append-only", key, Violated, ao.What+": "+why+" ("+shortFn(p.FuncKey(bad.Parent()))+"): the records no longer stand in the order they were read", p.InstrPos(bad), false)
+	default:
+		c.Ob(ao.Props, "E7.append-only", key, Discharged, "the list is only reset and appended to", "", true)
+	}
+}
